@@ -210,7 +210,7 @@ def run(ctx):
                 "insert_sorted_perm", "deactivated_monotone", "conflict_resolved_by_covering_update", "stats_order_independent", "stats_are_what_the_states_imply",
                 "observations_order_independent", "restart_changes_nothing", "iterators_agree_with_counters",
                 "resolve_answers_satisfy_filters", "deactivation_is_permanent", "covering_update_resolves_any_order",
-                "history_is_the_sorted_event_list",
+                "history_is_the_sorted_event_list", "shelves_refine_chain", "shelf_resolve_eq_resolve", "shelf_level_order_independent",
                 "fact_map_built_fields_sorted", "fact_writer_has_no_map_range", "fact_conflicted_flag_read_unconditionally",
                 "fact_before_order", "fact_equal_by_ref", "fact_event_fields_persisted", "fact_metadata_fields_persisted",
                 "fact_store_in_memory_state", "fact_cache_touch", "fact_version_keys", "fact_copied_conditions",
@@ -222,8 +222,8 @@ def run(ctx):
         "modelled, not verified: go-did JSON (un)marshalling of documents, SHA-256 of the merged document (model: injective rendering), bbolt atomic write transactions, go-stoabs",
         "model scope: vdr/didnuts/didstore event.go, writer.go (applyFrom/applyEvent/applyDocument incl. the in-memory conflicted cache), merge.go, "
         "store.go (Add/Resolve/Iterate/Conflicted/loadConflictedDocuments/HistorySinceVersion/stats), metadata.go (asVDRMetadata), finder.go; "
-        "the shelves (metadataV2 keys DID+version, latestV2, documentsV2, txRefV2, MetaRef numbering) are abstracted to the per-DID chain — "
-        "that abstraction is tied by correspondence and by the pinned key expressions, not by proof",
+        "eventsV2 MetaRef numbering, metadataV2 keys DID+version, latestV2 and Resolve's walk are modelled literally (NutsModel/C10/Shelves.lean) and "
+        "proved to refine the per-DID chain; documentsV2 / txRefV2 stay abstract (content addressed: a hash names one document)",
     ]
     ctx.assumptions += [
         "a transaction ref identifies the transaction (RefFun) and a payload hash identifies the document (content addressing)",
